@@ -21,6 +21,8 @@ from checks import grcommon as gc
 PID = "C01"
 TIGHT = 1e-9
 FINE = (8, 16)
+MATTER_ONLY = ['rho0', 'eps', 'rho', 'enthalpy', 'press', 'conserved_D',
+               'conserved_E', 'rho_n', 'Tdown4', 'gammadet', 'Ttrace']
 _CFG = None          # (input config, cache config, N, p, seed)
 _OPS = None
 
@@ -147,10 +149,7 @@ def plans(tier, seed):
         P.append((('tensor', dflt, N, p, seed),
                   ['Momentumx', 'Momentumy', 'Momentumz',
                    'fluxup3_n_fromMom', 'rho_n_fromHam', 'Momentumup3'], 4))
-        P.append((('rho_only', (1, 'always'), N, p, seed),
-                  ['rho0', 'eps', 'rho', 'enthalpy', 'press', 'conserved_D',
-                   'conserved_E', 'rho_n', 'Tdown4', 'gammadet', 'Ttrace'],
-                  3))
+        P.append((('rho_only', (1, 'always'), N, p, seed), MATTER_ONLY, 3))
         P.append((('tensor_other', dflt, N, p, seed),
                   red + ['uup4', 'eweyl_u_down4', 'bweyl_u_down4',
                          'h:null_vector_base'], 2))
@@ -160,9 +159,16 @@ def plans(tier, seed):
             for cconf in (dflt, (1, 'always'), (3, 'mid'), (5, 'mid2'),
                           (2, 'never')):
                 P.append(((incfg, cconf, N, p, seed), full, 2))
-        for incfg in ('tensor', 'components', 'fluid', 'rho_only'):
+        for incfg in ('tensor', 'components', 'fluid'):
             for cconf in ((1, 'always'), (2, 'mid'), (3, 'mid2')):
                 P.append(((incfg, cconf, N, p, seed), red, 3))
+        # 'rho_only' has a vacuum slab inside an FLRW geometry: on the slab
+        # the inputs do not satisfy Einstein's equations, so only the matter
+        # algebra is in its alphabet (a quantity derived through Einstein's
+        # equations legitimately differs there from the one derived from the
+        # geometry; see DESIGN 13.4)
+        for cconf in ((1, 'always'), (2, 'mid'), (3, 'mid2')):
+            P.append((('rho_only', cconf, N, p, seed), MATTER_ONLY, 3))
         P.append((('tensor', (2, 'mid'), N, p, seed), small, 4))
     return P
 
